@@ -22,6 +22,11 @@ META: dict[str, dict[str, str]] = {
         "note": "Pickle protocol semantics (cls.__new__(cls, *__getnewargs__())) and Basic.__getnewargs__ = args are trusted." + COMMON_NOTE,
         "technique": "static analysis: hook resolution through import aliases, arity comparison of Expr.__new__ calls against __new__ signatures",
     },
+    "C20": {
+        "level": "The decided clauses are polynomial identities, so the static verdict is complete for them: Kallen symmetric and factorised, third Mandelstam sum rule, Kibble = lambda(lambda,lambda,lambda) with the right sigma/mass pairing (fully unfolded, 100+ monomials), and the Piecewise wiring of is_within_phasespace (non-strict <=, value 1, caller's outside_value). That Kibble<=0 characterises the Dalitz region is textbook mathematics and trusted.",
+        "note": "Term extraction covers straight-line evaluate() bodies; formal polynomial algebra over Fraction coefficients." + COMMON_NOTE,
+        "technique": "static analysis: term extraction (forward substitution of the AST) + polynomial normal form comparison against the property's own formulas",
+    },
 }
 
 NOT_APPLICABLE: dict[str, str] = {}
